@@ -38,7 +38,7 @@ def bounds(tier):
 
 
 FOLDS = ["sum", "prod", "reduce", "reverse", "zip", "enumerate", "pairs", "chunks", "flatten", "filter",
-         "map_list", "unique", "range", "interval", "minmax"]
+         "map_list", "unique", "range", "interval", "minmax", "grouped"]
 BITS = ["bit_and", "bit_or", "bit_xor", "bit_not", "bit_rotate_left", "bit_rotate_right",
         "bit_shift_left", "bit_shift_right"]
 
@@ -187,6 +187,29 @@ def run_folds(ctx, cell):
         text = "[interval(a, b), interval(b)]"
         ia, ib = int(a), int(b)
         exp = vlist([ilist(list(range(ia, ib + 1))), ilist(list(range(1, ib + 1)))])
+    elif f == "grouped":
+        # ints, decimals and strings with duplicates and 1 versus 1.0
+        from harness.common import vdec, vstr
+        pool = [vint(1), vdec(1.0), vint(2), vdec(2.5), vstr("a")]
+        if n > 4:
+            return ["skip"]
+        els = [pool[ctx.choice("g%d" % i, len(pool))] for i in range(n)]
+        env = {"l": vlist(els)}
+        groups = []
+        for e in els:
+            if groups and groups[-1][0] == e:
+                groups[-1].append(e)
+            else:
+                groups.append([e])
+        text, exp = "grouped(l)", vlist([vlist(g) for g in groups])
+        xs = []
+        out = run_ckl(text, env)
+        detail = lambda: {"list": str(env["l"]), "got": ctx.plain(out), "expected": str(exp)}
+        if out.kind != "ok":
+            fail_out(ctx, key, out, detail)
+            return out
+        ctx.check(str(out.value) == str(exp), key + ":differs-from-definition", detail)
+        return out
     elif f == "minmax":
         text = "[min(l), max(l)]"
         out = run_ckl(text, env)
